@@ -159,7 +159,10 @@ pub fn replay(s: &mut Summary, v: &V) {
     let exp_st = json!({"lo": st["lo"], "hi": st["hi"], "so": st["so"],
                         "eo": st["so"].as_u64().unwrap() + st["hi"].as_u64().unwrap() - st["lo"].as_u64().unwrap(),
                         "dir": st["dir"]});
-    s.check("Parser/state", observe(p, orig, base), &exp_st);
+    // (C18 replays the same graph restricted to the parser_method! forms: the plain state is C13's business)
+    if v.get("only_pm").is_none() {
+        s.check("Parser/state", observe(p, orig, base), &exp_st);
+    }
     for out in v["outs"].as_array().unwrap() {
         let (op, pat, n) = op_fields(&out["o"]);
         let one_char = pat.chars().count() == 1;
